@@ -109,9 +109,24 @@ DIRECTED = [
 ]
 
 
+# arguments that LaTeX does not typeset (position, column specification)
+FORBID = {
+    'A \\begin{tabular}[t]{ll} xa & ya \\end{tabular} B': ['t]', 'll', '['],
+    'A \\begin{tabular}{|l|r|} xa & ya \\end{tabular} B': ['|l', 'r|'],
+    'A \\begin{tabular}[b]{lp{3cm}} xa & ya \\end{tabular} B': ['b]', 'lp', '3cm'],
+}
+DIRECTED += [(k, {}) for k in FORBID]
+
+
 def oracle_all(c, d, kind, im):
     if kind == 'directed' and im[0] == 'OK':
         t = '\n'.join(x for _, x, _ in universe.texts_of(im))
+        for bad in FORBID.get(c.latex, []):
+            if bad in t:
+                return ('argument of the construct that is not typeset appears in the '
+                        'output (%r): %r' % (bad, t))
+        if c.latex in FORBID and not ('xa' in t and 'ya' in t):
+            return 'text of the table cells lost: %r' % t
         if 'first' in c.latex and not ('first' in t and 'second' in t
                                        and 'file foot' not in t):
             return 'footnote text lost or text of the \\LTinput file emitted: %r' % t
